@@ -263,7 +263,14 @@ func c09GenCase(seed int64, idx int) packedCase {
 		rt = " (" + strings.Join(rts, ", ") + ")"
 	}
 	var sb strings.Builder
-	fmt.Fprintf(&sb, "func %s(%s)%s {\n", id, strings.Join(ps, ", "), rt)
+	// now and then the callee is a method of *T, called through the global gT and taken as a method value
+	callee := id
+	if rng.Chance(1, 3) {
+		callee = "gT." + id
+		fmt.Fprintf(&sb, "func (t *T) %s(%s)%s {\n", id, strings.Join(ps, ", "), rt)
+	} else {
+		fmt.Fprintf(&sb, "func %s(%s)%s {\n", id, strings.Join(ps, ", "), rt)
+	}
 	for i, p := range sig.params {
 		if blank[i] {
 			continue
@@ -338,7 +345,7 @@ func c09GenCase(seed int64, idx int) packedCase {
 		if len(rts) == 1 && rng.Bool() {
 			lit = "\tpair := func(a int) (int, int) {\n\t\treturn a, a + 1\n\t}\n\tq1, q2 := pair(1)\n\t_, _ = q1, q2\n"
 		}
-		fmt.Fprintf(&sb, "func %sw(%s)%s {\n%s\treturn %s(%s)\n}\n\n", id, strings.Join(wps, ", "), rt, lit, id, func() string {
+		fmt.Fprintf(&sb, "func %sw(%s)%s {\n%s\treturn %s(%s)\n}\n\n", id, strings.Join(wps, ", "), rt, lit, callee, func() string {
 			var as []string
 			for i := range sig.params {
 				as = append(as, fmt.Sprintf("p%d", i))
@@ -356,17 +363,17 @@ func c09GenCase(seed int64, idx int) packedCase {
 		tag := fmt.Sprintf("%s.%d", id, f)
 		switch k := rng.Intn(9); {
 		case k == 0 || len(rts) == 0:
-			fmt.Fprintf(&sb, "\t%s(%s)\n", id, args())
+			fmt.Fprintf(&sb, "\t%s(%s)\n", callee, args())
 		case k == 1 && len(rts) == 1:
-			fmt.Fprintf(&sb, "\tshow(%q, %s(%s))\n", tag, id, args())
+			fmt.Fprintf(&sb, "\tshow(%q, %s(%s))\n", tag, callee, args())
 		case k == 2 && len(rts) == 1 && (rts[0] == "int"):
-			fmt.Fprintf(&sb, "\tshow(%q, 1+%s(%s)*2, dbl(%s(%s)))\n", tag, id, args(), id, args())
+			fmt.Fprintf(&sb, "\tshow(%q, 1+%s(%s)*2, dbl(%s(%s)))\n", tag, callee, args(), callee, args())
 		case k == 3:
 			ns := resNames(fmt.Sprintf("w%d_", f))
 			fmt.Fprintf(&sb, "\t%s := %sw(%s)\n\tshow(%q, %s)\n", strings.Join(ns, ", "), id, args(), tag, reveal(ns))
 		case k == 4:
 			// function-typed variable
-			fmt.Fprintf(&sb, "\tfv%d := %s\n", f, id)
+			fmt.Fprintf(&sb, "\tfv%d := %s\n", f, callee)
 			ns := resNames(fmt.Sprintf("v%d_", f))
 			fmt.Fprintf(&sb, "\t%s := fv%d(%s)\n\tshow(%q, %s)\n", strings.Join(ns, ", "), f, args(), tag, reveal(ns))
 		case k == 5 && len(rts) >= 2:
@@ -379,9 +386,9 @@ func c09GenCase(seed int64, idx int) packedCase {
 				}
 			}
 			if all {
-				fmt.Fprintf(&sb, "\t%s = %s(%s)\n", strings.Join(ns, ", "), id, args())
+				fmt.Fprintf(&sb, "\t%s = %s(%s)\n", strings.Join(ns, ", "), callee, args())
 			} else {
-				fmt.Fprintf(&sb, "\t%s := %s(%s)\n\tshow(%q, %s)\n", strings.Join(ns, ", "), id, args(), tag, reveal(ns))
+				fmt.Fprintf(&sb, "\t%s := %s(%s)\n\tshow(%q, %s)\n", strings.Join(ns, ", "), callee, args(), tag, reveal(ns))
 			}
 		case k == 7 && len(rts) >= 2 && func() bool {
 			for _, t := range rts {
@@ -393,17 +400,17 @@ func c09GenCase(seed int64, idx int) packedCase {
 		}():
 			// a typed declaration of several variables from one call
 			ns := resNames(fmt.Sprintf("t%d_", f))
-			fmt.Fprintf(&sb, "\tvar %s %s = %s(%s)\n\tshow(%q, %s)\n", strings.Join(ns, ", "), rts[0], id, args(), tag, reveal(ns))
+			fmt.Fprintf(&sb, "\tvar %s %s = %s(%s)\n\tshow(%q, %s)\n", strings.Join(ns, ", "), rts[0], callee, args(), tag, reveal(ns))
 		case k == 6:
 			// results assigned to pre-declared variables of the declared types
 			ns := resNames(fmt.Sprintf("a%d_", f))
 			for i, n := range ns {
 				fmt.Fprintf(&sb, "\tvar %s %s\n", n, rts[i])
 			}
-			fmt.Fprintf(&sb, "\t%s = %s(%s)\n\tshow(%q, %s)\n", strings.Join(ns, ", "), id, args(), tag, reveal(ns))
+			fmt.Fprintf(&sb, "\t%s = %s(%s)\n\tshow(%q, %s)\n", strings.Join(ns, ", "), callee, args(), tag, reveal(ns))
 		default:
 			ns := resNames(fmt.Sprintf("r%d_", f))
-			fmt.Fprintf(&sb, "\t%s := %s(%s)\n\tshow(%q, %s)\n", strings.Join(ns, ", "), id, args(), tag, reveal(ns))
+			fmt.Fprintf(&sb, "\t%s := %s(%s)\n\tshow(%q, %s)\n", strings.Join(ns, ", "), callee, args(), tag, reveal(ns))
 		}
 	}
 	// method forms
@@ -540,7 +547,7 @@ func c09RunIll(r *core.Run, ill c09Ill, optimize bool) string {
 }
 
 func runC09(r *core.Run) {
-	r.SetRule("generated callee/driver pairs: 0-5 parameters over {int, byte, int8, uint32, float64, string, bool, []int, map[string]int, *T, func(int) int, any}, optional variadic tail, 0-3 results; call forms statement / value / inside an expression / multi-assign with blanks / pre-declared typed targets / return f() wrapper / function-typed variable / method / method value taken before a receiver update / function-typed field and parameter / spread / zero surplus arguments; nil and untyped constants for every parameter type; callees that write to the elements of a spread slice; recursion (direct, mutual, method) to depth 5000 with live locals; histories in which a function is defined again with another parameter list (later Eval or repeated Load) and then called from script and host; plus a table of ill-formed calls through script and host API under the trace monitor. non-trivial = accepted by Go and printed at least 3 lines; distinct by text")
+	r.SetRule("generated callee/driver pairs: 0-5 parameters over {int, byte, int8, uint32, float64, string, bool, []int, map[string]int, *T, func(int) int, any}, optional variadic tail, 0-3 results; call forms statement / value / inside an expression / multi-assign with blanks / pre-declared typed targets / return f() wrapper / function-typed variable / method / method value taken before a receiver update / function-typed field and parameter / spread / zero surplus arguments; nil and untyped constants for every parameter type; callees that write to the elements of a spread slice; recursion (direct, mutual, method) to depth 5000 with live locals; histories in which a function is defined again with another parameter list (later Eval or repeated Load) and then called from script and host; histories of host calls on one VM whose result slices are all read again after every later call; callees that are methods of *T called through a global and as method values; plus a table of ill-formed calls through script and host API under the trace monitor. non-trivial = accepted by Go and printed at least 3 lines; distinct by text")
 	r.Assume("Go toolchain (GOARCH=386) is the reference for well-formed calls; for ill-formed calls (not valid Go) the property text is the oracle: an error, never a silently misaligned stack")
 	n := r.N(1500, 30000)
 	var cases []packedCase
@@ -594,6 +601,15 @@ func runC09(r *core.Run) {
 			r.Count("redefinition_histories", 1)
 		}
 	}
+	for i := 0; i < r.N(60, 1200); i++ {
+		r.Eval(1)
+		if what, trace := c09HostHistory(r.Seed, i); what != "" {
+			r.Violate(core.Violation{Check: "c09-host", Index: i, What: what, Case: trace})
+		} else {
+			r.Distinct(fmt.Sprint(trace))
+			r.Count("host_call_histories", 1)
+		}
+	}
 	// recorded finding K07: f(g()) with a multi-valued g forwards the first result only
 	{
 		m := core.NewMachine(core.VMOpts{Optimize: true, Obs: core.NewObs(core.SmallBudget, false, nil)})
@@ -618,6 +634,80 @@ func runC09(r *core.Run) {
 			}
 		}
 	}
+}
+
+// c09HostHistory: several host calls on one VM. The results a call returned are the host's: later calls
+// (direct, through Func, nested through a native) do not change them.
+func c09HostHistory(seed int64, idx int) (what string, trace []string) {
+	rng := core.Derive(seed, "c09-host", idx)
+	m := core.NewMachine(core.VMOpts{Optimize: rng.Bool(), Obs: core.NewObs(core.SmallBudget, false, nil)})
+	src := "func pair(a int, b int) (int, int) { return a + 1, b + 2 }\nfunc triple(a int) (int, string, int) { return a * 2, \"s\", a * 3 }\nfunc one(a int) int { return a - 1 }\nfunc none(a int) { }\nfunc deep(n int) (int, int) { if n == 0 { return 7, 8 }; x, y := deep(n - 1); return x + 1, y + 1 }\nfunc vs(xs ...int) (int, int) { t := 0; for _, x := range xs { t += x }; return len(xs), t }\n"
+	if o := m.Eval(nil, src); o.Failed() {
+		return "setup failed: " + o.Err + o.Panic, nil
+	}
+	type kept struct {
+		call string
+		rets []goatlang.Value
+		want []string
+	}
+	var all []kept
+	verify := func(when string) string {
+		for _, k := range all {
+			var got []string
+			for _, v := range k.rets {
+				got = append(got, v.String())
+			}
+			if strings.Join(got, ",") != strings.Join(k.want, ",") {
+				return fmt.Sprintf("%s: the results of the earlier %s read %v, they were %v", when, k.call, got, k.want)
+			}
+		}
+		return ""
+	}
+	for step := rng.Range(2, 7); step > 0; step-- {
+		a, b := rng.Intn(1000), rng.Intn(1000)
+		var name string
+		var args []goatlang.Value
+		var want []string
+		switch rng.Intn(6) {
+		case 0:
+			name, args, want = "pair", []goatlang.Value{goatlang.Int(a), goatlang.Int(b)}, []string{fmt.Sprint(a + 1), fmt.Sprint(b + 2)}
+		case 1:
+			name, args, want = "triple", []goatlang.Value{goatlang.Int(a)}, []string{fmt.Sprint(a * 2), "s", fmt.Sprint(a * 3)}
+		case 2:
+			name, args, want = "one", []goatlang.Value{goatlang.Int(a)}, []string{fmt.Sprint(a - 1)}
+		case 3:
+			name, args, want = "none", []goatlang.Value{goatlang.Int(a)}, nil
+		case 4:
+			d := rng.Intn(30)
+			name, args, want = "deep", []goatlang.Value{goatlang.Int(d)}, []string{fmt.Sprint(7 + d), fmt.Sprint(8 + d)}
+		default:
+			name, args, want = "vs", []goatlang.Value{goatlang.Int(a), goatlang.Int(b), goatlang.Int(3)}, []string{"3", fmt.Sprint(a + b + 3)}
+		}
+		var rets []goatlang.Value
+		var err error
+		via := "Call"
+		p := core.Guard(func() {
+			if rng.Bool() {
+				rets, err = m.VM.Call("main."+name, len(want), args...)
+			} else {
+				via = "Func"
+				rets, err = m.VM.Func(m.VM.Get("main."+name), len(want), args...)
+			}
+		})
+		call := fmt.Sprintf("%s(main.%s, %d results, %v)", via, name, len(want), args)
+		trace = append(trace, call)
+		if p != "" || err != nil {
+			return fmt.Sprintf("%s fails: %v %s", call, err, p), trace
+		}
+		if len(rets) != len(want) {
+			return fmt.Sprintf("%s returns %d values, %d were requested", call, len(rets), len(want)), trace
+		}
+		all = append(all, kept{call, rets, want})
+		if what := verify("after " + call); what != "" {
+			return what, trace
+		}
+	}
+	return "", trace
 }
 
 // c09Redef: a function is defined again with another parameter list (a later Eval, or the package loaded
@@ -651,7 +741,9 @@ func c09Redef(seed int64, idx int) (what string, trace []string) {
 		var o core.Outcome
 		if viaLoad {
 			var err error
-			if p := core.Guard(func() { err = m.VM.Load(core.MapFS(map[string]string{"app/main.go": "package main\n\n" + f.src + "\n"}), "app") }); p != "" {
+			if p := core.Guard(func() {
+				err = m.VM.Load(core.MapFS(map[string]string{"app/main.go": "package main\n\n" + f.src + "\n"}), "app")
+			}); p != "" {
 				return "a Go panic escaped Load: " + p, trace
 			}
 			if err != nil {
